@@ -68,25 +68,33 @@ def run(ctx):
             pn, pf = leafproj(cfg, rn["log"]), leafproj(fcfg, rf["log"])
             edone = {d: v for d, v in sched.expected_done(cfg, b, flav).items() if cfg["kind"][d] == "leaf"}
             dn = {d: v for d, v in rn["done"].items() if cfg["kind"][d] == "leaf"}
-            problems = []
-            if pn != exp:
-                problems.append("nested real leaf events differ from the model")
-            if pf != exp:
-                problems.append("flat real leaf events differ from the (nested) model")
+            # C04 is a relation between two real runs: the nested forest and the same leaves listed flat.
+            problems, model_diff = [], []
+            if "escaped:Hang" in (rn["phase"], rf["phase"]):
+                problems.append("the real run did not return (nested: %s, flat: %s)" % (rn["phase"], rf["phase"]))
             if pn != pf:
                 problems.append("nested and flat real runs differ")
             if (rn["tyme"], rn["ddone"], rn["phase"]) != (rf["tyme"], rf["ddone"], rf["phase"]):
                 problems.append("completion differs: nested %s flat %s" % ((rn["tyme"], rn["ddone"], rn["phase"]), (rf["tyme"], rf["ddone"], rf["phase"])))
+            if dn != {d: v for d, v in rf["done"].items()}:
+                problems.append("leaf done flags differ: nested %s flat %s" % (dn, rf["done"]))
+            if bool(rn["late"]) != bool(rf["late"]):
+                problems.append("life-cycle events after do() returned in only one of the two runs")
+            # differences from the model that both runs share belong to C01-C03/C05, not to C04
+            if pn != exp:
+                model_diff.append("nested real leaf events differ from the model")
+            if pf != exp:
+                model_diff.append("flat real leaf events differ from the (nested) model")
             if (rn["tyme"], rn["ddone"], rn["phase"]) != (b["tyme"], b["ddone"], b["phase"]):
-                problems.append("completion differs from model")
-            if dn != edone or {d: v for d, v in rf["done"].items()} != edone:
-                problems.append("leaf done flags differ: model %s nested %s flat %s" % (edone, dn, rf["done"]))
-            if rn["late"] or rf["late"]:
-                problems.append("late events")
+                model_diff.append("completion differs from model")
+            if dn != edone:
+                model_diff.append("leaf done flags differ from the model: model %s nested %s" % (edone, dn))
             if problems:
                 i0 = next((j for j, (x, y) in enumerate(zip(pn, pf)) if x != y), None)
                 ctx.violation("%s [%s]: %s (first nested/flat difference at leaf event %s)" % (problems[0], name, problems, i0),
                               {"shape": name, "config": cfg, "script": fscript, "model": exp, "nested": pn, "flat": pf})
+            elif model_diff:
+                ctx.divergence("C04 [%s]: %s (nested and flat real runs agree with each other)" % (name, model_diff[0]))
         gc.unfreeze()
     return ctx.finish(rule="refinement of one FlatSched instance by every regrouping (TLC); behaviours of nested models replayed on the "
                            "real nested and the real flattened forest; distinct by (shape, leaf scripts)",
